@@ -144,6 +144,7 @@ func projectionForDelegation(w *World) map[string]string {
 		for _, pv := range []string{`"Paused":"Unknown",`, `,"Paused":"Unknown"`, `"Paused":"Unknown"`} {
 			v = strings.ReplaceAll(v, pv, "")
 		}
+		v = stripLatched(v)
 		out[k] = v
 	}
 	return out
@@ -300,4 +301,17 @@ func planC15(w *World, spec RunSpec) {
 		}
 	}
 	w.finish()
+}
+
+// stripLatched removes the Succeeded condition from a projected object: it records that the
+// revision was Available at some moment in the past, which in a differential run depends on how
+// workload readiness happened to interleave with the (differently long) rollouts of the two
+// worlds. End-state equality is about what holds now.
+func stripLatched(v string) string {
+	for _, st := range []string{"True", "False"} {
+		for _, pv := range []string{`"Succeeded":"` + st + `",`, `,"Succeeded":"` + st + `"`, `"Succeeded":"` + st + `"`} {
+			v = strings.ReplaceAll(v, pv, "")
+		}
+	}
+	return v
 }
